@@ -17,7 +17,9 @@ RULE_OWNER = {
     'tree_cnt': ['C10'], 'book': ['C10'], 'published': ['C10'], 'hier': ['C10'],
     'invoked': ['C10'], 'exception': ['C10', 'C09'], 'rebuild': ['C10'],
     # (a stale view is also not 'the committed state' of C04)
-    'view': ['C07', 'C04'], 'zview': ['C07', 'C05', 'C04'], 'seen': ['C05'], 'leaves': ['C09'],
+    # (... nor the value of the node the process's own updates go to, C06)
+    'view': ['C07', 'C04', 'C06'], 'zview': ['C07', 'C05', 'C04', 'C06'], 'seen': ['C05'],
+    'leaves': ['C09'],
     'update_object': ['C09'],
 }
 
